@@ -22,9 +22,12 @@ import (
 	minterv1 "github.com/chain4energy/c4e-chain/x/cfeminter/migrations/v1"
 	minterv2 "github.com/chain4energy/c4e-chain/x/cfeminter/migrations/v2"
 	mintertypes "github.com/chain4energy/c4e-chain/x/cfeminter/types"
+	vestv1 "github.com/chain4energy/c4e-chain/x/cfevesting/migrations/v1"
+	vestv2 "github.com/chain4energy/c4e-chain/x/cfevesting/migrations/v2"
 	vestv3 "github.com/chain4energy/c4e-chain/x/cfevesting/migrations/v3"
 	vesttypes "github.com/chain4energy/c4e-chain/x/cfevesting/types"
 	"github.com/cosmos/cosmos-sdk/codec"
+	"github.com/cosmos/cosmos-sdk/store/prefix"
 	sdk "github.com/cosmos/cosmos-sdk/types"
 	authtypes "github.com/cosmos/cosmos-sdk/x/auth/types"
 	paramstypes "github.com/cosmos/cosmos-sdk/x/params/types"
@@ -121,7 +124,7 @@ func runMigrateCase(ta *TestApp, seed uint64, idx int, rep *Report, profile stri
 		return f(), false
 	}
 	rep.Ops++
-	switch rng.Pick(55, 22, 5, 9, 9) {
+	switch rng.Pick(50, 20, 5, 8, 8, 5, 4) {
 	case 0: // ---------------------------------------------------------------- minter 2 -> 3
 		c := genMinterCfg(rng, t0)
 		var lms []legacyGen
@@ -445,7 +448,7 @@ func runMigrateCase(ta *TestApp, seed uint64, idx int, rep *Report, profile stri
 		}
 		rep.NoteCase(body, true)
 
-	default: // ---------------------------------------------------------------- v1.1.0: periodic reduction -> exponential step
+	case 4: // ---------------------------------------------------------------- v1.1.0: periodic reduction -> exponential step
 		mp := int32(1 + rng.I64n(40000000))
 		rpl := int32(1 + rng.I64n(8))
 		if rng.Chance(15) {
@@ -483,6 +486,99 @@ func runMigrateCase(ta *TestApp, seed uint64, idx int, rep *Report, profile stri
 			rep.Count("periodic.product_beyond_int32")
 		}
 		rep.NoteCase(body, true)
+
+	case 5: // ---------------------------------------------------------------- v1.1.0: vesting pool store 1 -> 2
+		clearStore(ctx, ta, vesttypes.StoreKey)
+		st := ctx.KVStore(app.GetKey(vesttypes.StoreKey))
+		pst := prefix.NewStore(st, vestv1.AccountVestingPoolsKeyPrefix)
+		type old struct{ v, w, lmv, lmw *big.Int }
+		var all []old
+		var ts []string
+		nOwners := 1 + rng.Intn(3)
+		ownerPools := map[string][]old{}
+		var ownerOrder []string
+		for o := 0; o < nOwners; o++ {
+			addr := sdk.AccAddress(rng.Bytes(20)).String()
+			avp := vestv1.AccountVestingPools{Address: addr}
+			for j := 0; j < 1+rng.Intn(3); j++ {
+				v := rng.LogUniform(18)
+				lmv := rng.BigBelow(new(big.Int).Add(v, bi(1)))   // locked at the last modification
+				lmw := rng.BigBelow(new(big.Int).Add(lmv, bi(1))) // withdrawn since
+				w := new(big.Int).Add(lmw, rng.BigBelow(new(big.Int).Add(new(big.Int).Sub(v, lmv), bi(1))))
+				if rng.Chance(30) {
+					lmv, lmw, w = new(big.Int).Set(v), bi(0), bi(0) // untouched pool
+				}
+				ls := t0.Add(-time.Duration(rng.I64n(int64(100 * 24 * time.Hour))))
+				avp.VestingPools = append(avp.VestingPools, &vestv1.VestingPool{Id: int32(j), Name: fmt.Sprintf("p%d", j), VestingType: "Validators", LockStart: ls, LockEnd: ls.Add(1000 * time.Hour),
+					Vested: sdk.NewIntFromBigInt(v), Withdrawn: sdk.NewIntFromBigInt(w), Sent: sdk.ZeroInt(), LastModification: ls,
+					LastModificationVested: sdk.NewIntFromBigInt(lmv), LastModificationWithdrawn: sdk.NewIntFromBigInt(lmw)})
+				ownerPools[addr] = append(ownerPools[addr], old{v, w, lmv, lmw})
+			}
+			bz, err0 := app.AppCodec().Marshal(&avp)
+			if err0 != nil {
+				panic(err0)
+			}
+			pst.Set([]byte(addr), bz)
+			ownerOrder = append(ownerOrder, addr)
+		}
+		vts := vestv1.VestingTypes{VestingTypes: []*vestv1.VestingType{{Name: "Validators", LockupPeriod: time.Hour, VestingPeriod: 2 * time.Hour}, {Name: "Other", LockupPeriod: time.Minute, VestingPeriod: time.Minute}}}
+		bz, _ := app.AppCodec().Marshal(&vts)
+		st.Set(vestv1.VestingTypesKey, bz)
+		err, _ := guard(func() error { return vestv2.MigrateStore(ctx, app.GetKey(vesttypes.StoreKey), app.AppCodec()) })
+		sort.Strings(ownerOrder)
+		for _, a := range ownerOrder {
+			all = append(all, ownerPools[a]...)
+		}
+		for _, o := range all {
+			ts = append(ts, fmt.Sprintf("{| v1_vested := %s; v1_withdrawn := %s; v1_lmv := %s; v1_lmw := %s |}", zB(o.v), zB(o.w), zB(o.lmv), zB(o.lmw)))
+		}
+		body = "GV1Pools " + zList(ts)
+		lockedBefore, lockedAfter := bi(0), bi(0)
+		for _, o := range all {
+			lockedBefore.Add(lockedBefore, new(big.Int).Sub(o.lmv, o.lmw))
+		}
+		if err == nil {
+			for _, avp := range app.CfevestingKeeper.GetAllAccountVestingPools(ctx) {
+				for _, p := range avp.VestingPools {
+					cur := p.GetCurrentlyLocked().BigInt()
+					expected = append(expected, p.InitiallyLocked.BigInt(), p.Withdrawn.BigInt(), p.Sent.BigInt(), cur)
+					lockedAfter.Add(lockedAfter, cur)
+				}
+			}
+			vt, verr := app.CfevestingKeeper.GetVestingType(ctx, "Validators")
+			vo, verr2 := app.CfevestingKeeper.GetVestingType(ctx, "Other")
+			rep.Eval("C16.v110_vesting_types_migrated", verr == nil && verr2 == nil && vt.Free.Equal(sdk.NewDecWithPrec(5, 2)) && vo.Free.IsZero() && vt.LockupPeriod == time.Hour && vo.VestingPeriod == time.Minute, idx, 0, fmt.Sprintf("%v %v", vt, vo))
+		}
+		rep.Eval("C16.v110_pool_migration_preserves_locked", err == nil && lockedBefore.Cmp(lockedAfter) == 0, idx, 0, fmt.Sprintf("locked before %s after %s err %v", lockedBefore, lockedAfter, err))
+		rep.NoteCase(body, true)
+
+	default: // ---------------------------------------------------------------- v1.1.0: minter state 1 -> 2
+		clearStore(ctx, ta, mintertypes.StoreKey)
+		st := ctx.KVStore(app.GetKey(mintertypes.StoreKey))
+		pos := int32(1 + rng.Intn(5))
+		minted := rng.LogUniform(20)
+		rem := rng.BigBelow(new(big.Int).Exp(bi(10), bi(18), nil))
+		remPrev := rng.BigBelow(new(big.Int).Exp(bi(10), bi(18), nil))
+		if rng.Chance(15) {
+			minted = new(big.Int).Neg(minted)
+		}
+		old := minterv1.MinterState{Position: pos, AmountMinted: sdk.NewIntFromBigInt(minted), RemainderToMint: sdk.NewDecFromBigIntWithPrec(rem, 18),
+			LastMintBlockTime: t0, RemainderFromPreviousPeriod: sdk.NewDecFromBigIntWithPrec(remPrev, 18)}
+		bz, err0 := app.AppCodec().Marshal(&old)
+		if err0 != nil {
+			panic(err0)
+		}
+		st.Set(minterv1.MinterStateKey, bz)
+		err, _ := guard(func() error { return minterv2.MigrateStore(ctx, app.GetKey(mintertypes.StoreKey), app.AppCodec()) })
+		body = fmt.Sprintf("GV1MState %d %s %s %s", pos, zB(minted), zB(rem), zB(remPrev))
+		if err != nil {
+			expected = ok(false)
+		} else {
+			ms := app.CfeminterKeeper.GetMinterState(ctx)
+			expected = []*big.Int{bi(1), bi(int64(ms.SequenceId)), ms.AmountMinted.BigInt(), ms.RemainderToMint.BigInt(), ms.RemainderFromPreviousMinter.BigInt()}
+			rep.Eval("C16.v110_minter_state_migrated", ms.LastMintBlockTime.Equal(t0), idx, 0, "last mint block time changed")
+		}
+		rep.NoteCase(body, err == nil)
 	}
 	return fmt.Sprintf("{| gc_id := %d; gc_body := %s; gc_expected := %s |}", idx, body, zListB(expected))
 }
